@@ -70,20 +70,20 @@ impl<'de, 'a> DeserializeSeed<'de> for R<'a> {
                 .map(|x| Val::Dt(Dt { date: None, time: Some((x.hour, x.minute, x.second, x.nanosecond)), offset: None })),
             Ty::Option(t) => d.deserialize_option(OptV { t, cfg }),
             Ty::Seq(t) => d.deserialize_seq(SeqV { t, cfg }),
-            Ty::Tuple(ts) => d.deserialize_tuple(ts.len(), TupV { ts, cfg }),
-            Ty::TupleStruct(name, ts) => d.deserialize_tuple_struct(intern(name), ts.len(), TupV { ts, cfg }),
+            Ty::Tuple(ts) => d.deserialize_tuple(ts.len(), TupV { ts, cfg, what: None }),
+            Ty::TupleStruct(name, ts) => d.deserialize_tuple_struct(intern(name), ts.len(), TupV { ts, cfg, what: Some(format!("tuple struct {name}")) }),
             Ty::Map(kt, vt) => d.deserialize_map(MapV { kt, vt, cfg }),
             Ty::Struct(name, fs) => {
                 let names: Vec<String> = fs.iter().map(|(f, _)| f.clone()).collect();
-                d.deserialize_struct(intern(name), intern_list(&names), StructV { fs, cfg })
+                d.deserialize_struct(intern(name), intern_list(&names), StructV { fs, cfg, what: format!("struct {name}") })
             }
-            Ty::Newtype(name, t) => d.deserialize_newtype_struct(intern(name), NewtypeV { t, cfg }),
+            Ty::Newtype(name, t) => d.deserialize_newtype_struct(intern(name), NewtypeV { t, cfg, name }),
             Ty::Enum(name, vars) => {
                 let names: Vec<String> = vars.iter().map(|(f, _)| f.clone()).collect();
-                d.deserialize_enum(intern(name), intern_list(&names), EnumV { vars, cfg })
+                d.deserialize_enum(intern(name), intern_list(&names), EnumV { vars, cfg, name })
             }
             Ty::Unit => <()>::deserialize(d).map(|_| Val::Unit),
-            Ty::UnitStruct(name) => d.deserialize_unit_struct(intern(name), UnitV),
+            Ty::UnitStruct(name) => d.deserialize_unit_struct(intern(name), UnitV { name }),
             Ty::Any => toml::Value::deserialize(d).map(|v| Val::Any(Tree::from_value(&v))),
             Ty::Spanned(t) => {
                 static FIELDS: [&str; 3] = [
@@ -110,9 +110,9 @@ impl<'de, 'a> DeserializeSeed<'de> for RKey<'a> {
             KeyTy::UnitVariant(name, vars) => {
                 let vars: Vec<(String, VarTy)> = vars.iter().map(|v| (v.clone(), VarTy::Unit)).collect();
                 let names: Vec<String> = vars.iter().map(|(f, _)| f.clone()).collect();
-                d.deserialize_enum(intern(name), intern_list(&names), EnumV { vars: &vars, cfg: self.cfg })
+                d.deserialize_enum(intern(name), intern_list(&names), EnumV { vars: &vars, cfg: self.cfg, name })
             }
-            KeyTy::NewtypeStr(name) => d.deserialize_newtype_struct(intern(name), NewtypeV { t: &Ty::Str, cfg: self.cfg }),
+            KeyTy::NewtypeStr(name) => d.deserialize_newtype_struct(intern(name), NewtypeV { t: &Ty::Str, cfg: self.cfg, name }),
             KeyTy::I64 => i64::deserialize(d).map(|x| Val::Int(x as i128)),
             KeyTy::Bool => bool::deserialize(d).map(Val::Bool),
             KeyTy::Char => char::deserialize(d).map(Val::Char),
@@ -166,18 +166,31 @@ impl<'de, 'a> Visitor<'de> for SeqV<'a> {
 struct TupV<'a> {
     ts: &'a [Ty],
     cfg: &'a RCfg,
+    /// None: a std tuple; Some(what): "tuple struct Name" / "tuple variant Enum::Variant"
+    what: Option<String>,
+}
+fn with_elements(what: &str, n: usize) -> String {
+    format!("{what} with {n} element{}", if n == 1 { "" } else { "s" })
 }
 impl<'de, 'a> Visitor<'de> for TupV<'a> {
     type Value = Val;
     fn expecting(&self, f: &mut fmt::Formatter<'_>) -> fmt::Result {
-        write!(f, "a tuple of size {}", self.ts.len())
+        match &self.what {
+            None => write!(f, "a tuple of size {}", self.ts.len()),
+            Some(w) => f.write_str(w),
+        }
     }
     fn visit_seq<A: SeqAccess<'de>>(self, mut a: A) -> Result<Val, A::Error> {
         let mut out = Vec::new();
         for (i, t) in self.ts.iter().enumerate() {
             match a.next_element_seed(R { ty: t, cfg: self.cfg })? {
                 Some(x) => out.push(x),
-                None => return Err(A::Error::invalid_length(i, &self)),
+                None => {
+                    return Err(match &self.what {
+                        None => A::Error::invalid_length(i, &self),
+                        Some(w) => A::Error::invalid_length(i, &with_elements(w, self.ts.len()).as_str()),
+                    })
+                }
             }
         }
         Ok(Val::Seq(out))
@@ -195,7 +208,7 @@ impl<'de, 'a> Visitor<'de> for MapV<'a> {
         f.write_str("a map")
     }
     fn visit_map<A: MapAccess<'de>>(self, mut a: A) -> Result<Val, A::Error> {
-        let _ = a.size_hint();
+        // (BTreeMap's visitor, unlike HashMap's, does not ask for a size hint)
         let mut out = Vec::new();
         while let Some(k) = a.next_key_seed(RKey { kt: self.kt, cfg: self.cfg })? {
             let v = a.next_value_seed(R { ty: self.vt, cfg: self.cfg })?;
@@ -238,18 +251,20 @@ impl<'de, 'a> Visitor<'de> for FieldSeed<'a> {
 struct StructV<'a> {
     fs: &'a [(String, Ty)],
     cfg: &'a RCfg,
+    /// "struct Name" / "struct variant Enum::Variant"
+    what: String,
 }
 impl<'de, 'a> Visitor<'de> for StructV<'a> {
     type Value = Val;
     fn expecting(&self, f: &mut fmt::Formatter<'_>) -> fmt::Result {
-        f.write_str("struct")
+        f.write_str(&self.what)
     }
     fn visit_seq<A: SeqAccess<'de>>(self, mut a: A) -> Result<Val, A::Error> {
         let mut out = Vec::new();
         for (i, (_, t)) in self.fs.iter().enumerate() {
             match a.next_element_seed(R { ty: t, cfg: self.cfg })? {
                 Some(x) => out.push(x),
-                None => return Err(A::Error::invalid_length(i, &self)),
+                None => return Err(A::Error::invalid_length(i, &with_elements(&self.what, self.fs.len()).as_str())),
             }
         }
         Ok(Val::Struct(out))
@@ -286,11 +301,12 @@ impl<'de, 'a> Visitor<'de> for StructV<'a> {
 struct NewtypeV<'a> {
     t: &'a Ty,
     cfg: &'a RCfg,
+    name: &'a str,
 }
 impl<'de, 'a> Visitor<'de> for NewtypeV<'a> {
     type Value = Val;
     fn expecting(&self, f: &mut fmt::Formatter<'_>) -> fmt::Result {
-        f.write_str("tuple struct of 1 element")
+        write!(f, "tuple struct {}", self.name)
     }
     fn visit_newtype_struct<D: Deserializer<'de>>(self, d: D) -> Result<Val, D::Error> {
         R { ty: self.t, cfg: self.cfg }.deserialize(d)
@@ -298,7 +314,7 @@ impl<'de, 'a> Visitor<'de> for NewtypeV<'a> {
     fn visit_seq<A: SeqAccess<'de>>(self, mut a: A) -> Result<Val, A::Error> {
         match a.next_element_seed(R { ty: self.t, cfg: self.cfg })? {
             Some(x) => Ok(x),
-            None => Err(A::Error::invalid_length(0, &self)),
+            None => Err(A::Error::invalid_length(0, &with_elements(&format!("tuple struct {}", self.name), 1).as_str())),
         }
     }
 }
@@ -321,7 +337,7 @@ impl<'de, 'a> Visitor<'de> for VariantSeed<'a> {
         if (v as usize) < self.vars.len() {
             Ok(v as usize)
         } else {
-            Err(E::invalid_value(de::Unexpected::Unsigned(v), &"variant index"))
+            Err(E::invalid_value(de::Unexpected::Unsigned(v), &format!("variant index 0 <= i < {}", self.vars.len()).as_str()))
         }
     }
     fn visit_str<E: de::Error>(self, v: &str) -> Result<usize, E> {
@@ -347,11 +363,12 @@ impl<'de, 'a> Visitor<'de> for VariantSeed<'a> {
 struct EnumV<'a> {
     vars: &'a [(String, VarTy)],
     cfg: &'a RCfg,
+    name: &'a str,
 }
 impl<'de, 'a> Visitor<'de> for EnumV<'a> {
     type Value = Val;
     fn expecting(&self, f: &mut fmt::Formatter<'_>) -> fmt::Result {
-        f.write_str("enum")
+        write!(f, "enum {}", self.name)
     }
     fn visit_enum<A: EnumAccess<'de>>(self, a: A) -> Result<Val, A::Error> {
         let (i, variant) = a.variant_seed(VariantSeed { vars: self.vars })?;
@@ -361,21 +378,23 @@ impl<'de, 'a> Visitor<'de> for EnumV<'a> {
                 Val::Unit
             }
             VarTy::Newtype(t) => variant.newtype_variant_seed(R { ty: t, cfg: self.cfg })?,
-            VarTy::Tuple(ts) => variant.tuple_variant(ts.len(), TupV { ts, cfg: self.cfg })?,
+            VarTy::Tuple(ts) => variant.tuple_variant(ts.len(), TupV { ts, cfg: self.cfg, what: Some(format!("tuple variant {}::{}", self.name, self.vars[i].0)) })?,
             VarTy::Struct(fs) => {
                 let names: Vec<String> = fs.iter().map(|(f, _)| f.clone()).collect();
-                variant.struct_variant(intern_list(&names), StructV { fs, cfg: self.cfg })?
+                variant.struct_variant(intern_list(&names), StructV { fs, cfg: self.cfg, what: format!("struct variant {}::{}", self.name, self.vars[i].0) })?
             }
         };
         Ok(Val::Variant(i, Box::new(payload)))
     }
 }
 
-struct UnitV;
-impl<'de> Visitor<'de> for UnitV {
+struct UnitV<'a> {
+    name: &'a str,
+}
+impl<'de, 'a> Visitor<'de> for UnitV<'a> {
     type Value = Val;
     fn expecting(&self, f: &mut fmt::Formatter<'_>) -> fmt::Result {
-        f.write_str("unit struct")
+        write!(f, "unit struct {}", self.name)
     }
     fn visit_unit<E: de::Error>(self) -> Result<Val, E> {
         Ok(Val::Unit)
